@@ -288,8 +288,9 @@ PROPS = {
                 "(index created before and after insert, dropped), beta (add a, lookup b) and memo (node constant a/b on fact sets a/b); random histories of 3..10 ops for alpha (insert/create/drop/filter on 2 fields), "
                 "beta (add/remove/lookup), memo (2..10 evaluations over look-alike fact sets) and the conclusion index (add enabled/disabled rules with 0..2 Set actions, remove, find with 9 operator spellings); "
                 "non-trivial = label not 'trivial'",
-        "level_text": "Proved: Debug-equal values are interchangeable for == (all shapes, NaN, signed zero, nested arrays); a memoised evaluation equals direct evaluation after any sequence of earlier evaluations. "
-                "Alpha filter = scan, beta lookup = live facts with that key, and conclusion-index completeness are the Coq-defined executable specifications in Index.ok evaluated on the real structures "
+        "level_text": "Proved: for EVERY history of insertions, index creations, drops and filters the alpha-memory answers are those of the index-free scan (all value shapes, NaN, signed zeros, nested arrays; by an invariant "
+                "over all indexes: every bucket, filtered, is the scan, with index keys an equivalence that contains ==); Debug-equal values are interchangeable for ==; a memoised evaluation equals direct evaluation after any "
+                "sequence of earlier evaluations. Beta lookup = live facts with that key and conclusion-index completeness are the Coq-defined executable specifications in Index.ok evaluated on the real structures "
                 "after every op, plus model-vs-code comparison.",
         "level_note": "Trusted: Coq kernel; models of alpha_memory_index.rs/memoization.rs after fixes c8e1e36/34a4ae3, of BetaMemoryIndex and ConclusionIndex; Debug rendering of FactValue injective except NaN; "
                 "DefaultHasher collision-free (model compares the hashed sequences); SpecFloat for IEEE equality; harness; extraction. alpha_index_eq_scan is not yet a theorem (monitor only). Axioms: none.",
